@@ -1,16 +1,16 @@
 #!/bin/sh
 # seed_eval.sh <worktree> <patch.diff> <check ids...>
 # Preliminary evaluation of a seeded change WITHOUT touching /repo or /verif: works in a scratch copy of /verif
-# (/tmp/vseed) against the scratch worktree. The confirmed run registered in seeded/<id>/meta.json is made with
+# (${VSEED:-/tmp/vseed}) against the scratch worktree. The confirmed run registered in seeded/<id>/meta.json is made with
 # tools/run_seeded.py against /repo itself.
 set -e
 WT=$1; PATCH=$2; shift 2
-mkdir -p /tmp/vseed
-rsync -a --delete --exclude .git --exclude replays --exclude evidence /verif/ /tmp/vseed/
-mkdir -p /tmp/vseed/replays /tmp/vseed/evidence
+mkdir -p ${VSEED:-/tmp/vseed}
+rsync -a --delete --exclude .git --exclude replays --exclude evidence /verif/ ${VSEED:-/tmp/vseed}/
+mkdir -p ${VSEED:-/tmp/vseed}/replays ${VSEED:-/tmp/vseed}/evidence
 git -C $WT checkout -q -- . && git -C $WT apply $PATCH
 for c in "$@"; do
   echo "--- $c"
-  (cd /tmp/vseed && VERIF_REPO=$WT timeout 1200 python3 tools/check.py $c quick; echo "exit=$?") 2>&1 | tail -4
+  (cd ${VSEED:-/tmp/vseed} && VERIF_REPO=$WT timeout 1200 python3 tools/check.py $c quick; echo "exit=$?") 2>&1 | tail -4
 done
 git -C $WT checkout -q -- .
